@@ -217,7 +217,7 @@ func propC09(r *Run, w *World) {
 				r.OK(key+" (exempt)", c.Pos(), "the SYSCALL item count is dropped on purpose (named by the property)")
 				return
 			}
-			moved := false
+			moved, returned := false, false
 			instrsOf(fn, func(in2 ssa.Instruction) {
 				lk, ok := in2.(*ssa.Lookup)
 				if !ok {
@@ -249,8 +249,43 @@ func propC09(r *Run, w *World) {
 					if st, ok := rf.(*ssa.Store); ok && st.Val == val {
 						moved = true
 					}
+					if _, isRet := rf.(*ssa.Return); isRet {
+						returned = true
+					}
 				}
 			})
+			if !moved && returned && fn.Parent() == nil && fn.Object() != nil && !fn.Object().Exported() {
+				// a take-helper: looks the key up, deletes it and returns the value; the move is
+				// completed by each caller, which must store the result into the event
+				sites := x.w.CallSitesRaw(fn)
+				for _, s := range sites {
+					ci, isCall := s.Instr.(*ssa.Call)
+					okSite := isCall && s.Kind == "static"
+					if okSite {
+						okSite = false
+						if refs := ci.Referrers(); refs != nil {
+							for _, rf := range *refs {
+								if st, ok := rf.(*ssa.Store); ok && st.Val == ssa.Value(ci) {
+									okSite = true
+								}
+							}
+						}
+					}
+					argT := "?"
+					if isCall {
+						for i, par := range fn.Params {
+							if ssa.Value(par) == c.Call.Args[1] && i < len(ci.Call.Args) {
+								argT = Term(ci.Call.Args[i])
+							}
+						}
+					}
+					r.Check(okSite, fmt.Sprintf("delete(Data, %s) in %s via %s", argT, fnName(s.Caller), fnName(fn)), s.Instr.Pos(), "value taken by the helper is stored in the event by the caller",
+						"the value removed from event.Data by "+fnName(fn)+" is not stored by this caller: the field is lost")
+				}
+				if len(sites) > 0 {
+					return
+				}
+			}
 			r.Check(moved, key, c.Pos(), "value stored in the event first", "event.Data["+keyT+"] is deleted without its value having been stored elsewhere in the event: the field is lost")
 		})
 	}
